@@ -10,7 +10,9 @@ RULE = ('(collection, write path in {whole-array, per-signature}, payload size, 
         'terminated with os._exit immediately before its n-th storage-library call (h5py File(), attribute write, create_dataset, dataset write, '
         'close); the parent then runs the real loader on the file left behind. Every n in 0..len(trace) for small payloads; for multi-megabyte '
         'payloads every n (thorough) or a spread of n incl. all the last ones (quick). The recorded call trace is compared with the Lean writer '
-        'trace. Non-trivial = distinct (payload, path, n) with 0 < n < len(trace).')
+        'trace. The same points are revisited with other ways to die (KeyboardInterrupt raised at the call = Ctrl-C / a handler that unwinds; SIGTERM '
+        'sent to the process itself), over a complete earlier file at the destination, and with a loaded signature file (metadata and IDs reassigned) as '
+        'the collection being saved. Non-trivial = distinct (payload, path, n) with 0 < n < len(trace).')
 TRUSTED = ['harness/props/c19.py + Driver/C12.lean', 'os._exit terminates the process without running HDF5 / Python cleanup (equivalent to a kill at that point)']
 ASSUMPTIONS = ['HDF5 (libhdf5 as shipped with h5py 3.16) does not make the root object header reachable before flush/close — this is the runtime behaviour being sampled']
 
@@ -21,9 +23,19 @@ class _Killer:
 		self.kill_at = kill_at
 		self.trace = []
 
+	mode = 'exit'
+
 	def tick(self, tok):
 		if self.kill_at is not None and self.n == self.kill_at:
-			os._exit(0)
+			if self.mode == 'exit':
+				os._exit(0)                      # hard death (SIGKILL, power loss): nothing more runs
+			self.kill_at = None
+			if self.mode == 'raise':
+				raise KeyboardInterrupt()        # death by an interrupt that unwinds the interpreter (Ctrl-C): cleanup handlers run, then the process ends
+			if self.mode == 'sigterm':
+				import signal, time
+				os.kill(os.getpid(), signal.SIGTERM)   # death by SIGTERM (kill, scheduler limit): whatever the program installed runs
+				time.sleep(0.05)
 		self.n += 1
 		self.trace.append(tok)
 
@@ -81,20 +93,33 @@ def _make(case):
 
 def run_writer(path, case, kill_at):
 	"""fork; child writes and is killed before call `kill_at` (None = never); returns the recorded trace when not killed"""
-	from gambit.sigs import dump_signatures
+	from gambit.sigs import dump_signatures, load_signatures
 	obj, sigs, kspec = _make(case)
+	src = None
+	if case.get('src') == 'hdf5-reassigned':
+		# the collection being saved is itself a loaded signature file whose metadata and IDs were reassigned before saving
+		from gambit.sigs import AnnotatedSignatures, SignatureList, SignaturesMeta
+		src = str(path) + '.src.gs'
+		dump_signatures(src, AnnotatedSignatures(SignatureList(sigs, kspec), [f'old{i}' for i in range(len(sigs))], SignaturesMeta(id='old', id_attr='refseq_acc')))
 	r, w = os.pipe()
 	pid = os.fork()
 	if pid == 0:
 		try:
 			os.close(r)
+			if src is not None:
+				obj = load_signatures(src)
+				obj.meta = SignaturesMeta(id='x', id_attr='key', extra={'a': [1, 2]})
+				obj.ids = [f'id{i}' for i in range(len(sigs))]
 			killer = _Killer(kill_at)
+			killer.mode = case.get('mode', 'exit')
 			_instrument(killer)
 			kw = {}
 			if case.get('compression'):
 				kw['compression'] = case['compression']
 			dump_signatures(path, obj, **kw)
 			os.write(w, ','.join(killer.trace).encode())
+		except BaseException:
+			pass                               # the dying process: the interrupt has unwound the writer; nothing else is done
 		finally:
 			os._exit(0)
 	os.close(w)
@@ -120,8 +145,26 @@ def check(ctx, case):
 			# collapse per-signature / bounds writes to the model's token
 			return [f'c19.trace {"1" if case["fast"] else "0"} {case["nsigs"]} {trace}'], []
 		n = case['n']
+		old = None
+		if case.get('pre'):
+			# a complete signature file (another collection) already exists at the destination
+			from gambit.kmers import KmerSpec
+			from gambit.sigs import AnnotatedSignatures, SignatureList, SignaturesMeta, dump_signatures
+			ok_ = KmerSpec(case['k'], 'AT')
+			old = [np.arange(5 + i, 5 + i + 400, dtype=ok_.index_dtype) for i in range(case['nsigs'] + 2)]
+			dump_signatures(p, AnnotatedSignatures(SignatureList(old, ok_), [f'previous{i}' for i in range(len(old))], SignaturesMeta(id='previous', id_attr='key')))
 		trace, obj, sigs, kspec = run_writer(p, case, n)
 		pf = []
+		if old is not None and n == 0:
+			# the writer died before touching the destination: the earlier file must be exactly what it was
+			try:
+				with load_signatures(p) as lo:
+					if not (len(lo) == len(old) and all(np.array_equal(lo[i], old[i]) for i in range(len(old))) and lo.meta.id == 'previous'):
+						pf.append('the earlier file at the destination was altered by a writer that died before opening it')
+			except Exception as e:
+				pf.append(f'the earlier file at the destination no longer loads: {exc_kind(e)}')
+			case['_nt'] = False
+			return [], pf
 		try:
 			loaded = load_signatures(p)
 		except Exception as e:
@@ -130,7 +173,7 @@ def check(ctx, case):
 			try:
 				same = (loaded.kmerspec == kspec and len(loaded) == len(sigs) and all(np.array_equal(loaded[i], sigs[i]) for i in range(len(sigs)))
 				        and np.dtype(loaded.dtype) == kspec.index_dtype)
-				if not case['fast']:
+				if not case['fast'] or case.get('src'):
 					same = same and list(loaded.ids) == [f'id{i}' for i in range(len(sigs))] and loaded.meta.id == 'x' and loaded.meta.extra == {'a': [1, 2]}
 				real = 'loaded-same' if same else 'loaded-different'
 			except Exception as e:
@@ -138,7 +181,8 @@ def check(ctx, case):
 			finally:
 				loaded.close()
 		case['_nt'] = 0 < n < case['len']
-		return [f'c19.crash {"1" if case["fast"] else "0"} {case["nsigs"]} {n} {real}'], pf
+		op = 'c19.crash' if case.get('mode', 'exit') == 'exit' else 'c19.unwind'      # hard death / death through the interpreter's unwinding
+		return [f'{op} {"1" if case["fast"] else "0"} {case["nsigs"]} {n} {real}'], pf
 	finally:
 		sc.cleanup()
 
@@ -172,4 +216,11 @@ def run(ctx):
 					break
 				if 0 <= n <= length:
 					sub(dict(base, kind='crash', n=n, len=length), 'crash')
+					if (nsigs, siglen, k) not in big or n % 3 == 0 or n >= length - 3:
+						# other ways to die at the same point, other starting states, another kind of source object
+						sub(dict(base, kind='crash', n=n, len=length, mode='raise'), 'crash-interrupt')
+						sub(dict(base, kind='crash', n=n, len=length, mode='sigterm'), 'crash-sigterm')
+						sub(dict(base, kind='crash', n=n, len=length, pre=True, mode=rng.choice(['exit', 'raise'])), 'crash-over-existing-file')
+						if not fast and not comp:
+							sub(dict(base, kind='crash', n=n, len=length, src='hdf5-reassigned', mode=rng.choice(['exit', 'raise'])), 'crash-source-is-loaded-file')
 	ctx.exhaustive = ['every kill point 0..len(trace) for the small payloads, both write paths']
